@@ -166,8 +166,8 @@ func IsBin(op string) bool {
 }
 func IsUn(op string) bool { return op == "!" || op == "()" || op == "length" }
 
-func V(t Term) *Expr               { return &Expr{Op: "val", Val: &t} }
-func Un(op string, a *Expr) *Expr  { return &Expr{Op: op, Args: []*Expr{a}} }
+func V(t Term) *Expr                  { return &Expr{Op: "val", Val: &t} }
+func Un(op string, a *Expr) *Expr     { return &Expr{Op: op, Args: []*Expr{a}} }
 func Bin(op string, l, r *Expr) *Expr { return &Expr{Op: op, Args: []*Expr{l, r}} }
 
 // Op is one element of a postfix operator sequence.
